@@ -43,6 +43,7 @@ OA_ClientTextbox, OA_ClientAnchor, OA_ClientData = 0xF00D, 0xF010, 0xF011
 OA_BlipJPEG, OA_BlipPNG, OA_BlipDIB = 0xF01D, 0xF01E, 0xF01F
 
 TX_TITLE, TX_BODY, TX_NOTES, TX_OTHER = 0, 1, 2, 4
+TX_CENTER_TITLE = 6
 PT_MasterTitle, PT_MasterBody, PT_NotesBody, PT_Title, PT_Body = 0x01, 0x02, 0x0C, 0x0D, 0x0E
 
 HEADER_TOKEN_PLAIN = 0xE391C05F
@@ -190,10 +191,14 @@ def _slide_atom(geom: int, placeholders: list[int], master_id: int, notes_id: in
 def _slide_texts(slide: dict) -> list[tuple[int, str, str]]:
     """[(text type, kind, text)] in the order title, body..., other..."""
     out: list[tuple[int, str, str]] = []
+    two = bool(slide.get("two_titles")) and slide.get("title") is not None and bool(slide.get("body"))
     if slide.get("title") is not None:
-        out.append((TX_TITLE, "title", slide["title"]))
-    for t in slide.get("body") or []:
-        out.append((TX_BODY, "body", t))
+        # two_titles: the title is a centre title (type 6) and the last body text is a second block of a title type (type 0).  The reader files such a block under
+        # "other text", which it prints after the body - so only the last position keeps source order and documented order the same
+        out.append((TX_CENTER_TITLE if two else TX_TITLE, "title", slide["title"]))
+    nb = len(slide.get("body") or [])
+    for bi, t in enumerate(slide.get("body") or []):
+        out.append((TX_TITLE if two and bi == nb - 1 else TX_BODY, "body", t))
     for t in slide.get("other") or []:
         out.append((TX_OTHER, "other", t))
     return out
